@@ -5,7 +5,7 @@ EXTENDS Integers, Sequences, TLC, Json, IOUtils
 Trace == ndJsonDeserialize(IOEnv.IN_FILE)
 Laws == {"x('w')('t')=x", "x('t')('w')=x", "noise-round-trip", "Parseval", "'f'='w'", "ifftshift(x('w',shift))=x('w')", "fftshift(x('t',shift))=x('t')",
          "x('w',shift)=x('w')[spec-permutation]", "x('t',shift)=x('t')[spec-permutation]", "noise-transformed-like-signal",
-         "w()=2pi*k*fs/N", "w(shift)=2pi*k*fs/N", "power=mean|s+n|^2", "x('w')=numpy.fft.fft", "x('t')=numpy.fft.ifft", "exact-layer"}
+         "w()=2pi*k*fs/N", "w(shift)=2pi*k*fs/N", "power=mean|s+n|^2", "x('w')=numpy.fft.fft", "x('t')=numpy.fft.ifft", "exact-layer", "transform-leaves-x-unchanged"}
 Clauses(e) == IF e.name \notin Laws THEN {"unknown-law"} ELSE IF e.ppt > 1000 THEN {e.name} ELSE {}
 Bad == UNION {{<<i, c>> : c \in Clauses(Trace[i])} : i \in 1..Len(Trace)}
 ASSUME JsonSerialize(IOEnv.OUT_FILE, [n |-> Len(Trace), bad |-> Bad])
